@@ -389,7 +389,7 @@ func CompileList(list List) (f Object) {
 						},
 					}
 				}
-				fi = &FuncInfo{Create: fc, Pkg: pkg, Export: true}
+				fi = &FuncInfo{Name: name, Create: fc, Pkg: pkg, Export: true}
 				pkg.funcs[name] = fi
 			}
 			pkg.mu.Unlock()
